@@ -146,8 +146,20 @@ def merge(a, b):
     return a
 
 
+class RunTimeout(Exception):
+    pass
+
+
+def _alarm(signum, frame):
+    raise RunTimeout("run exceeded its wall-clock cap")
+
+
 def worker(prop, base_seed, start, stride, tier, armed, deadline, max_runs):
+    import signal
+
     faulthandler.enable()
+    faulthandler.dump_traceback_later(max(60, deadline - time.time() + 120), exit=True)
+    signal.signal(signal.SIGALRM, _alarm)
     from .profiles import PROFILES
 
     profile = PROFILES[prop]
@@ -156,8 +168,11 @@ def worker(prop, base_seed, start, stride, tier, armed, deadline, max_runs):
     n = 0
     while time.time() < deadline and n < max_runs:
         try:
+            signal.alarm(20)
             run_index(profile, base_seed, idx, tier, armed, agg)
+            signal.alarm(0)
         except Exception:  # harness bug: never a violation, never success
+            signal.alarm(0)
             agg["harness_errors"].append({"run_index": idx, "trace": traceback.format_exc()[-1500:]})
             if len(agg["harness_errors"]) > 5:
                 break
@@ -165,6 +180,7 @@ def worker(prop, base_seed, start, stride, tier, armed, deadline, max_runs):
             break
         idx += stride
         n += 1
+    faulthandler.cancel_dump_traceback_later()
     return agg
 
 
